@@ -18,7 +18,10 @@ RULE = ("seeded generator. TCP: ~30 byte streams (HTTP requests with/without Hos
         "record length field shortened/lengthened/zero, 0x17 records, two records, the suite's own capture; garbage, 0/1/2-byte streams) x "
         "scripts (whole, all 2-way splits of the first 64 bytes and all 3-way splits of the first 13 (thorough: 64) bytes for five streams, a "
         "deadline/EOF/reset error at every position of the first 48 (thorough: 64) bytes with and without accompanying data, zero-length reads, 150 consecutive empty reads, random chunkings) "
-        "x request addresses (v4, [v6], domain, without port) and a failing SetReadDeadline. UDP: QUIC v1/v2 Initials sealed by the harness's "
+        "x request addresses (v4, [v6], domain, without port) and a failing SetReadDeadline. TCP histories of 2..12 hooked streams on one Sniffer "
+        "(every ordered pair of flow kinds TLS/HTTP/unrecognised/short: A sniffed, then B, then A's replay looked at; random interleavings of "
+        "sniff and look-at events; concurrent sniffing, thorough tier also under -race): every stream's replay ++ unread = sent when looked at "
+        "after the other sniffs. UDP: QUIC v1/v2 Initials sealed by the harness's "
         "own RFC 9001 implementation (1-4 byte packet numbers, tokens, 0..20-byte connection IDs, CRYPTO frames in order/reversed/overlapping/"
         "gapped/duplicated/>12 frames, a ClientHello cut into 2..7 frames with a hole of 1..40 bytes in the client random / session id / "
         "server name / padding / extension headers behind the lowest-offset frame or a later one, missing head, missing tail, PING/PADDING, lying frame lengths, wrong keys, Length field too short/long, coalesced trailing bytes, "
@@ -148,6 +151,8 @@ def gen_tcp(rng, tier):
         defs["t_suite"] = sm[0]
     for k, v in defs.items():
         S[k] = add_stream(v)
+    SIDS.clear()
+    SIDS.update(S)
     big = b"GET / HTTP/1.1\r\nX-Big: " + b"a" * 300000 + b"\r\nHost: big.example\r\n\r\n"
     S["h_big"] = add_stream(big, "(%s ++ repeat x61 (N.to_nat 300000) ++ %s)" % (common.coq_bytes(b"GET / HTTP/1.1\r\nX-Big: "),
                                                                         common.coq_bytes(b"\r\nHost: big.example\r\n\r\n")))
@@ -222,6 +227,82 @@ def gen_tcp(rng, tier):
             continue
         a = rng.choice([addr_for(k)] * 5 + ["[2001:db8::2]:443", "host.example:80", "bad"])
         cases.append(tcp(S[k], evs, a))
+    return cases
+
+
+SIDS = {}             # name -> stream id of gen_tcp's byte streams (filled by gen_tcp)
+
+
+def gen_tcpseq(rng, tier):
+    """histories of SEVERAL hooked streams on one Sniffer: stream A is sniffed, then B (and C ...) BEFORE A's replay is
+    looked at - core/server logs and dials the target between Sniffer.TCP's return and the write of the putback, so
+    other streams are sniffed in that window.  Every stream's replay ++ unread must still be what it sent."""
+    thorough = tier != "quick"
+    S = SIDS
+    cases = []
+    kinds = {"tls": ["t1", "t_nosni", "t_trail", "t_colon"], "http": ["h1", "h2", "h_two", "h_v6", "h_4095"],
+             "other": ["g_rand", "g_text", "g_123", "t_zero"], "short": ["g_2", "g_1", "h_partial", "t_hdr4", "t_long_eof"]}
+
+    def ln(k):
+        return len(STREAMS[S[k]][0])
+
+    def addr_for(k):
+        return "1.2.3.4:443" if k.startswith("t") else "1.2.3.4:80"
+
+    def item(k, mode):
+        n = ln(k)
+        if mode == 0 or n < 2:
+            evs = [[n, 0]]
+        elif mode == 1:
+            evs = [[n, 1]]
+        else:
+            evs, left = [], n
+            while left > 0:
+                c = min(left, rng.choice([1, 2, 3, 5, 16, 100, 4093]))
+                evs.append([c, rng.choice([0] * 12 + [1, 2, 3])])
+                left -= c
+                if rng.random() < 0.1:
+                    evs.append([0, 0])
+        return tcp(S[k], evs, rng.choice([addr_for(k)] * 4 + ["[::1]:8443", "noport"]))
+
+    def seq(items, hist=None, conc=False):
+        cases.append({"k": "tcpseq", "items": items, "hist": hist or [], "conc": conc})
+
+    def all_then_look(n, order=None):
+        return [[0, i] for i in range(n)] + [[1, i] for i in (order or range(n))]
+
+    # every ordered pair of flow kinds: A sniffed, B sniffed, then A's replay is looked at (and B's)
+    for ka in kinds:
+        for kb in kinds:
+            for _ in range(1 if not thorough else 6):
+                a, b = rng.choice(kinds[ka]), rng.choice(kinds[kb])
+                seq([item(a, 0), item(b, rng.choice([0, 0, 2]))], all_then_look(2))
+    # the same stream kind three times in a row, looked at in reverse order
+    for k in ("t1", "h1", "g_rand", "h_4095"):
+        seq([item(k, 0), item(rng.choice(kinds[rng.choice(list(kinds))]), 0), item(k, 2)], all_then_look(3, [2, 0, 1]))
+    # random histories: 2..6 streams, any interleaving in which a stream is sniffed before it is looked at
+    allk = [k for v in kinds.values() for k in v]
+    for _ in range(24 if not thorough else 1500):
+        n = rng.randint(2, 6)
+        items = [item(rng.choice(allk), rng.choice([0, 0, 1, 2, 2])) for _ in range(n)]
+        evs = [[0, i] for i in range(n)] + [[1, i] for i in range(n)]
+        rng.shuffle(evs)
+        hist, seen, pending = [], set(), []
+        for e in evs:
+            if e[0] == 0:
+                hist.append(e)
+                seen.add(e[1])
+                hist += [x for x in pending if x[1] == e[1]]
+                pending = [x for x in pending if x[1] != e[1]]
+            elif e[1] in seen:
+                hist.append(e)
+            else:
+                pending.append(e)
+        seq(items, hist)
+    # concurrent sniffing of 3..12 streams
+    for _ in range(6 if not thorough else 300):
+        n = rng.randint(3, 12)
+        seq([item(rng.choice(allk), rng.choice([0, 0, 2])) for _ in range(n)], conc=True)
     return cases
 
 
@@ -457,7 +538,7 @@ def gen_check(rng, tier):
 def gen(rng, tier):
     global HEADER
     del STREAMS[:]
-    cases = gen_tcp(rng, tier) + gen_udp(rng, tier) + gen_check(rng, tier)
+    cases = gen_tcp(rng, tier) + gen_udp(rng, tier) + gen_check(rng, tier) + gen_tcpseq(rng, tier)
     defs = []
     for i, (b, expr) in enumerate(STREAMS):
         defs.append("Definition S%d : list byte := %s." % (i, expr if expr else common.coq_bytes(b)))
@@ -481,6 +562,11 @@ def bl(x):
 
 def to_coq(c, o):
     k = c["k"]
+    if k == "tcpseq":
+        its = o.get("items") or []
+        if len(its) != len(c["items"]):
+            return None
+        return "CSeq [%s]" % ";".join(to_coq(ci, oi) for ci, oi in zip(c["items"], its))
     if k == "tcp":
         s = "S%d" % c["sid"]
         n = len(c["sent"]) // 2
@@ -562,6 +648,9 @@ def klass(c, o):
     k = c["k"]
     if o.get("panic") or o.get("pl_panic") or o.get("hdr_panic"):
         return k + ":panic"
+    if k == "tcpseq":
+        n = len(c["items"])
+        return "tcpseq:%s:%s" % ("concurrent" if c["conc"] else "interleaved", "2" if n == 2 else "3+")
     if k == "tcp":
         out = "err" if o["err"] else "rewrite" if o["addr2"] != c["addr"] else "same"
         errs = "+err-events" if any(e for _, e in c["evs"]) else ""
@@ -578,6 +667,8 @@ def klass(c, o):
 
 def nontrivial(c, o):
     k = c["k"]
+    if k == "tcpseq":
+        return sum(1 for oi in (o.get("items") or []) if not oi.get("panic") and oi.get("rn", 0) >= 3) >= 2
     if k == "tcp":
         return not o.get("panic") and (o.get("rn", 0) > 3 or len(c["evs"]) > 1)
     if k == "udp":
@@ -613,8 +704,31 @@ def search(ctx, disagreeing):
 
 
 def run(ctx):
+    import random
     import sys
-    return common.run_case_check(ctx, sys.modules[__name__])
+    extra = []
+    if ctx.tier != "quick":
+        # thorough tier: the several-streams histories once more under the race detector (a write to a replay slice
+        # that was already handed back races with its reader)
+        cases = [c for c in gen(random.Random(ctx.seed), ctx.tier) if c["k"] == "tcpseq"]
+        rok, routs, _, rlog = common.run_go_cases(ctx, GO, cases, tag="race", race=True)
+        ctx.say("tcpseq histories under -race: %s" % ("ok" if rok else "FAILED"))
+        bad = [(c, o) for c, o in zip(cases, routs) if o.get("ok") is False]
+        for c, o in bad[:1]:
+            extra.append({"what": "tcpseq (-race): %s" % o.get("why"), "replay": {"case": c, "impl": o}, "fingerprint": None, "found_input": True})
+        if not rok and not bad:
+            extra.append({"what": "C17 harness fails under -race: " + rlog.strip()[-600:], "replay": {"broken": "race", "log": rlog[-4000:]},
+                          "fingerprint": None, "found_input": False})
+    # common.run_case_check ends in common.finish(ctx, pinfo, cov, violations, ...): hand it the -race findings too
+    orig = common.finish
+
+    def fin(ctx_, pinfo, cov, violations, *a, **kw):
+        return orig(ctx_, pinfo, cov, list(violations) + extra, *a, **kw)
+    common.finish = fin
+    try:
+        return common.run_case_check(ctx, sys.modules[__name__])
+    finally:
+        common.finish = orig
 
 
 def replay(ctx, path):
